@@ -210,7 +210,7 @@ Fixpoint tbin (r : tail) (m : nat) : binop :=
 Fixpoint sem_operand (x : operand) : Arith.expr :=
   match x with
   | Num t => Lit (num_val t) | Pct t _ _ => Lit (num_val t / (100 # 1))%Q | Paren _ _ _ e _ => sem_expr e
-  | Call _ _ _ _ | Fact _ _ | NumU _ _ _ => Lit 0%Q   (* calls, facts and quantities with units are not numeric expressions: excluded by [readable_operand] *)
+  | Call _ _ _ _ | Fact _ _ | NumU _ _ _ | Brace _ _ _ _ => Lit 0%Q   (* calls, facts and quantities with units are not numeric expressions: excluded by [readable_operand] *)
   end
 with sem_expr (e : expr) : Arith.expr :=
   match e with
@@ -227,7 +227,7 @@ with tsem (r : tail) (m : nat) {struct r} : Arith.expr :=
   end.
 
 Fixpoint readable_operand (x : operand) : Prop :=
-  match x with Num t | Pct t _ _ => num_readable t | Paren _ _ _ e _ => readable_expr e | Call _ _ _ _ | Fact _ _ | NumU _ _ _ => False end
+  match x with Num t | Pct t _ _ => num_readable t | Paren _ _ _ e _ => readable_expr e | Call _ _ _ _ | Fact _ _ | NumU _ _ _ | Brace _ _ _ _ => False end
 with readable_expr (e : expr) : Prop := match e with Chain x r => readable_operand x /\ readable_tail r end
 with readable_tail (r : tail) : Prop :=
   match r with TNil => True | TCons _ _ _ _ x r' => readable_operand x /\ readable_tail r' | TTo _ _ _ _ _ => False end.   (* no casts: they are not numeric expressions *)
@@ -258,6 +258,7 @@ Proof.
     rewrite !nodes_of_app, nodes_of_wsT, Nt. reflexivity.
   - intros name po pc a _ Hr. destruct Hr.
   - intros first ms Hr. destruct Hr.
+  - intros bo bc bw wl Hr. destruct Hr.
   - intros x IHx r IHr [Hx Hr] w. cbn [trees_expr sem_expr]. rewrite canon_is_climb.
     destruct (IHr Hr) as [Hb Hg].
     apply ritems_shape with (bound := length (prios r)).
